@@ -3,7 +3,7 @@ import json
 import os
 
 
-def main():
+def table():
     d = json.load(open(os.path.join(os.path.dirname(os.path.dirname(os.path.abspath(__file__))), "known-findings.json")))
     rows = []
     for f in d["findings"]:
@@ -13,10 +13,25 @@ def main():
             what = what.split(" ", 3)[3] if len(what.split(" ", 3)) > 3 else what
         rows.append((f["property"], f["id"], st, what.replace("|", "/").replace("\n", " ")[:230]))
     rows.sort(key=lambda r: (r[2].startswith("open"), r[0], r[1]))
-    print("| id | property | status | what |")
-    print("|---|---|---|---|")
+    out = ["| id | property | status | what |", "|---|---|---|---|"]
     for p, i, st, w in rows:
-        print(f"| {i} | {p} | {st} | {w} |")
+        w = w if len(w) < 230 else w[:w.rfind(" ")] + " ..."
+        out.append(f"| {i} | {p} | {st} | {w} |")
+    return "\n".join(out) + "\n"
+
+
+def main():
+    """prints the table; with --write replaces it between the markers of DESIGN.md"""
+    import sys
+    t = table()
+    if "--write" in sys.argv:
+        p = os.path.join(os.path.dirname(os.path.dirname(os.path.abspath(__file__))), "DESIGN.md")
+        s = open(p).read()
+        a, b = "<!-- findings-table:begin -->\n", "<!-- findings-table:end -->"
+        s = s[:s.index(a) + len(a)] + t + s[s.index(b):]
+        open(p, "w").write(s)
+    else:
+        print(t, end="")
 
 
 if __name__ == "__main__":
